@@ -107,6 +107,7 @@ def run(prog: Program, res: Result, tier: str) -> None:
     iso.check_candidates(prog, res)
     iso.check_feasibility(prog, res)
     iso.check_both_sides(prog, res)
+    iso.check_state_shape(prog, res)
     iso.check_stereo_index(prog, res)
     iso.check_main_loop(prog, res)
     check_role_feas(prog, res)
